@@ -1,2 +1,243 @@
-/- C07 — theorems under construction -/
-import MPilot.Model.Eems
+/-
+C07 — arithmetic commands are correct for all numeric types and input orders.
+-/
+import MPilot.Lemmas.Perm
+import Mathlib.Algebra.BigOperators.Group.List.Basic
+
+namespace MPilot.C07
+open MPilot
+
+/-! ### cell definitions -/
+
+/-- what an n-ary fold command leaves in cell `i`: missing iff some input is missing there, else the fold of the column -/
+theorem naryFold_cell (ref : LineRef) (g : Rat → Rat → Rat) (a : Arr) (t : List Arr) (r : Arr) (i : Nat)
+    (h : naryFold ref g (a :: t) = .ok r) (hi : ∀ x ∈ a :: t, i < x.cells.length) :
+    ∃ c, r.cells[i]? = some c ∧ c.mask = (column (a :: t) i).any (·.mask) ∧
+      (c.mask = false → c.val = fold1 g ((column (a :: t) i).map (·.val))) := by
+  unfold naryFold at h
+  obtain ⟨_, _, h⟩ := bind_ok h
+  injection h with h; subst h
+  have hc := column_spec (a :: t) i hi
+  simp only [column, List.map_cons] at hc ⊢
+  cases hc with
+  | cons ha ht =>
+    refine ⟨_, foldArr_column g _ a t i _ _ ha ht, foldCells_mask _ _ _, fun hm => ?_⟩
+    rw [foldCells_mask] at hm
+    exact foldCells_val g _ _ hm
+
+theorem fold1_add (x : Rat) (l : List Rat) : fold1 (· + ·) (x :: l) = (x :: l).sum := by
+  simp only [fold1_cons]
+  induction l generalizing x with
+  | nil => simp
+  | cons y t ih => rw [List.foldl_cons, ih]; simp [add_assoc]
+
+theorem fold1_mul (x : Rat) (l : List Rat) : fold1 (· * ·) (x :: l) = (x :: l).prod := by
+  simp only [fold1_cons]
+  induction l generalizing x with
+  | nil => simp
+  | cons y t ih => rw [List.foldl_cons, ih]; simp [mul_assoc]
+
+/-- **Sum**: each result cell is missing iff some input cell is, and otherwise holds the sum of the input cells. -/
+theorem sum_cell (sqrt : Rat → Rat) (a : Arr) (t : List Arr) (r : Arr) (i : Nat)
+    (h : exec sqrt .sum (a :: t) = .ok r) (hi : ∀ x ∈ a :: t, i < x.cells.length) :
+    ∃ c, r.cells[i]? = some c ∧ c.mask = (column (a :: t) i).any (·.mask) ∧
+      (c.mask = false → c.val = ((column (a :: t) i).map (·.val)).sum) := by
+  simp only [exec] at h
+  obtain ⟨c, h1, h2, h3⟩ := naryFold_cell _ _ a t r i h hi
+  refine ⟨c, h1, h2, fun hm => ?_⟩
+  rw [h3 hm]; simp only [column, List.map_cons]; exact fold1_add _ _
+
+/-- **Multiply**: product of the input cells. -/
+theorem multiply_cell (sqrt : Rat → Rat) (a : Arr) (t : List Arr) (r : Arr) (i : Nat)
+    (h : exec sqrt .multiply (a :: t) = .ok r) (hi : ∀ x ∈ a :: t, i < x.cells.length) :
+    ∃ c, r.cells[i]? = some c ∧ c.mask = (column (a :: t) i).any (·.mask) ∧
+      (c.mask = false → c.val = ((column (a :: t) i).map (·.val)).prod) := by
+  simp only [exec] at h
+  obtain ⟨c, h1, h2, h3⟩ := naryFold_cell _ _ a t r i h hi
+  refine ⟨c, h1, h2, fun hm => ?_⟩
+  rw [h3 hm]; simp only [column, List.map_cons]; exact fold1_mul _ _
+
+theorem fold1_min_le (x : Rat) (l : List Rat) : ∀ y ∈ x :: l, fold1 ratMin (x :: l) ≤ y := by
+  simp only [fold1_cons]
+  induction l generalizing x with
+  | nil => intro y hy; simp at hy; simp [hy]
+  | cons z t ih =>
+    intro y hy
+    rw [List.foldl_cons]
+    have hle : ∀ w ∈ ratMin x z :: t, List.foldl ratMin (ratMin x z) t ≤ w := ih (ratMin x z)
+    have hm : List.foldl ratMin (ratMin x z) t ≤ ratMin x z := hle _ (List.mem_cons_self ..)
+    rcases List.mem_cons.mp hy with rfl | hy
+    · exact le_trans hm (by rw [ratMin_eq_min]; exact min_le_left _ _)
+    · rcases List.mem_cons.mp hy with rfl | hy
+      · exact le_trans hm (by rw [ratMin_eq_min]; exact min_le_right _ _)
+      · exact hle y (List.mem_cons_of_mem _ hy)
+
+theorem fold1_min_mem (x : Rat) (l : List Rat) : fold1 ratMin (x :: l) ∈ x :: l := by
+  simp only [fold1_cons]
+  induction l generalizing x with
+  | nil => simp
+  | cons z t ih =>
+    rw [List.foldl_cons]
+    have := ih (ratMin x z)
+    rcases List.mem_cons.mp this with h | h
+    · rw [h]; unfold ratMin; split_ifs <;> simp
+    · exact List.mem_cons_of_mem _ (List.mem_cons_of_mem _ h)
+
+theorem fold1_max_ge (x : Rat) (l : List Rat) : ∀ y ∈ x :: l, y ≤ fold1 ratMax (x :: l) := by
+  simp only [fold1_cons]
+  induction l generalizing x with
+  | nil => intro y hy; simp at hy; simp [hy]
+  | cons z t ih =>
+    intro y hy
+    rw [List.foldl_cons]
+    have hle := ih (ratMax x z)
+    have hm : ratMax x z ≤ List.foldl ratMax (ratMax x z) t := hle _ (List.mem_cons_self ..)
+    rcases List.mem_cons.mp hy with rfl | hy
+    · exact le_trans (by rw [ratMax_eq_max]; exact le_max_left _ _) hm
+    · rcases List.mem_cons.mp hy with rfl | hy
+      · exact le_trans (by rw [ratMax_eq_max]; exact le_max_right _ _) hm
+      · exact hle y (List.mem_cons_of_mem _ hy)
+
+theorem fold1_max_mem (x : Rat) (l : List Rat) : fold1 ratMax (x :: l) ∈ x :: l := by
+  simp only [fold1_cons]
+  induction l generalizing x with
+  | nil => simp
+  | cons z t ih =>
+    rw [List.foldl_cons]
+    have := ih (ratMax x z)
+    rcases List.mem_cons.mp this with h | h
+    · rw [h]; unfold ratMax; split_ifs <;> simp
+    · exact List.mem_cons_of_mem _ (List.mem_cons_of_mem _ h)
+
+/-- **Minimum**: the result cell is one of the input cells and is ≤ every one of them (i.e. their minimum). -/
+theorem minimum_cell (sqrt : Rat → Rat) (a : Arr) (t : List Arr) (r : Arr) (i : Nat)
+    (h : exec sqrt .minimum (a :: t) = .ok r) (hi : ∀ x ∈ a :: t, i < x.cells.length) :
+    ∃ c, r.cells[i]? = some c ∧ c.mask = (column (a :: t) i).any (·.mask) ∧
+      (c.mask = false → c.val ∈ (column (a :: t) i).map (·.val) ∧ ∀ y ∈ (column (a :: t) i).map (·.val), c.val ≤ y) := by
+  simp only [exec] at h
+  obtain ⟨c, h1, h2, h3⟩ := naryFold_cell _ _ a t r i h hi
+  refine ⟨c, h1, h2, fun hm => ?_⟩
+  rw [h3 hm]; simp only [column, List.map_cons]
+  exact ⟨fold1_min_mem _ _, fold1_min_le _ _⟩
+
+/-- **Maximum**. -/
+theorem maximum_cell (sqrt : Rat → Rat) (a : Arr) (t : List Arr) (r : Arr) (i : Nat)
+    (h : exec sqrt .maximum (a :: t) = .ok r) (hi : ∀ x ∈ a :: t, i < x.cells.length) :
+    ∃ c, r.cells[i]? = some c ∧ c.mask = (column (a :: t) i).any (·.mask) ∧
+      (c.mask = false → c.val ∈ (column (a :: t) i).map (·.val) ∧ ∀ y ∈ (column (a :: t) i).map (·.val), y ≤ c.val) := by
+  simp only [exec] at h
+  obtain ⟨c, h1, h2, h3⟩ := naryFold_cell _ _ a t r i h hi
+  refine ⟨c, h1, h2, fun hm => ?_⟩
+  rw [h3 hm]; simp only [column, List.map_cons]
+  exact ⟨fold1_max_mem _ _, fold1_max_ge _ _⟩
+
+/-- **AMinusB**: cell-wise difference, missing iff either operand is. -/
+theorem aMinusB_cells (sqrt : Rat → Rat) (a b r : Arr) (h : exec sqrt .aMinusB [a, b] = .ok r) :
+    r.dtype = a.dtype.promote b.dtype ∧ r.cells = List.zipWith (Cell.bin (· - ·)) a.cells b.cells := by
+  simp only [exec] at h
+  obtain ⟨_, _, h⟩ := bind_ok h
+  injection h with h; subst h
+  exact ⟨rfl, rfl⟩
+
+/-- **ADividedByB**: the result is floating; cell-wise quotient. -/
+theorem aDividedByB_cells (sqrt : Rat → Rat) (a b r : Arr) (h : exec sqrt .aDividedByB [a, b] = .ok r) :
+    r.dtype = .float ∧ r.cells = List.zipWith Cell.div a.cells b.cells := by
+  simp only [exec] at h
+  obtain ⟨_, _, h⟩ := bind_ok h
+  injection h with h; subst h
+  exact ⟨rfl, rfl⟩
+
+/-- **Division by zero yields a missing cell, never an error**: a quotient cell is missing exactly when an operand is
+missing or the divisor is 0, and otherwise holds `a / b`. -/
+theorem div_zero_masked (x y : Cell) :
+    ((Cell.div x y).mask = true ↔ x.mask = true ∨ y.mask = true ∨ y.val = 0) ∧
+    ((Cell.div x y).mask = false → (Cell.div x y).val = x.val / y.val) := by
+  unfold Cell.div
+  constructor
+  · simp [Bool.or_eq_true, or_assoc]
+  · intro h; simp only at h ⊢; rw [if_neg (by simpa using h)]
+
+/-- a same-shaped pair never makes `ADividedByB` fail, whatever the divisor holds -/
+theorem aDividedByB_total (sqrt : Rat → Rat) (a b : Arr) (hs : a.shape = b.shape) :
+    ∃ r, exec sqrt .aDividedByB [a, b] = .ok r := by
+  simp only [exec, validateShapes, List.all_cons, List.all_nil, Bool.and_true, hs, beq_self_eq_true, if_true]
+  exact ⟨_, rfl⟩
+
+/-! ### every input order gives the same outcome (same error, or visibly equal results) -/
+
+theorem sum_perm (sqrt : Rat → Rat) {xs xs' : List Arr} (h : xs.Perm xs') (n : Nat) (hn : ∀ x ∈ xs, x.cells.length = n) :
+    ExceptR (exec sqrt .sum xs) (exec sqrt .sum xs') := by
+  simp only [exec]; exact naryFold_perm _ _ (fun a b => add_comm a b) (fun a b c => add_assoc a b c) h n hn
+
+theorem multiply_perm (sqrt : Rat → Rat) {xs xs' : List Arr} (h : xs.Perm xs') (n : Nat) (hn : ∀ x ∈ xs, x.cells.length = n) :
+    ExceptR (exec sqrt .multiply xs) (exec sqrt .multiply xs') := by
+  simp only [exec]; exact naryFold_perm _ _ (fun a b => mul_comm a b) (fun a b c => mul_assoc a b c) h n hn
+
+theorem minimum_perm (sqrt : Rat → Rat) {xs xs' : List Arr} (h : xs.Perm xs') (n : Nat) (hn : ∀ x ∈ xs, x.cells.length = n) :
+    ExceptR (exec sqrt .minimum xs) (exec sqrt .minimum xs') := by
+  simp only [exec]; exact naryFold_perm _ _ ratMin_comm ratMin_assoc h n hn
+
+theorem maximum_perm (sqrt : Rat → Rat) {xs xs' : List Arr} (h : xs.Perm xs') (n : Nat) (hn : ∀ x ∈ xs, x.cells.length = n) :
+    ExceptR (exec sqrt .maximum xs) (exec sqrt .maximum xs') := by
+  simp only [exec]; exact naryFold_perm _ _ ratMax_comm ratMax_assoc h n hn
+
+theorem mean_perm (sqrt : Rat → Rat) {xs xs' : List Arr} (h : xs.Perm xs') (n : Nat) (hn : ∀ x ∈ xs, x.cells.length = n) :
+    ExceptR (exec sqrt .mean xs) (exec sqrt .mean xs') := by
+  simp only [exec]
+  rw [← validateShapes_perm .cmd h, ← h.length_eq]
+  rcases validateShapes_cases .cmd xs with hv | hv | hv <;> rw [hv]
+  · cases xs with
+    | nil => rw [List.nil_perm.mp h]; exact ExceptR.eMp _ _
+    | cons a t =>
+      cases xs' with
+      | nil => exact absurd (List.perm_nil.mp h) (by simp)
+      | cons a' t' =>
+        have hs := (validateShapes_ok_iff .cmd (a :: t) (by simp)).mp hv
+        have hf := foldArr_perm (· + ·) (fun a b => add_comm a b) (fun a b c => add_assoc a b c) .float h n hn
+        refine ⟨?_, ?_, map_R (fun _ _ => divSc_R _) hf⟩
+        · show (foldArr _ _ a t).dtype = (foldArr _ _ a' t').dtype
+          rw [foldArr_dtype, foldArr_dtype]
+        show (foldArr _ _ a t).shape = (foldArr _ _ a' t').shape
+        rw [naryFold_perm.C05_foldArr_shape, naryFold_perm.C05_foldArr_shape]
+        exact hs a (List.mem_cons_self ..) a' (h.mem_iff.mpr (List.mem_cons_self ..))
+  · exact ExceptR.eMp _ _
+  · exact ExceptR.eMp _ _
+
+/-! ### specific errors, in the order the bodies check them -/
+
+/-- an empty input list is reported as `EmptyInputs` by every list-taking arithmetic command -/
+theorem empty_inputs_error (sqrt : Rat → Rat) :
+    exec sqrt .sum [] = eMp "EmptyInputs" .cmd ∧ exec sqrt .multiply [] = eMp "EmptyInputs" .cmd ∧
+    exec sqrt .minimum [] = eMp "EmptyInputs" .cmd ∧ exec sqrt .maximum [] = eMp "EmptyInputs" .cmd ∧
+    exec sqrt .mean [] = eMp "EmptyInputs" .cmd ∧ exec sqrt (.weightedSum []) [] = eMp "EmptyInputs" .cmd ∧
+    exec sqrt (.weightedMean []) [] = eMp "EmptyInputs" .cmd := by
+  refine ⟨rfl, rfl, rfl, rfl, rfl, rfl, rfl⟩
+
+/-- two or more inputs that do not all have one shape are reported as `MixedArrayShapes` -/
+theorem mixed_shapes_error (sqrt : Rat → Rat) (a b : Arr) (t : List Arr) (h : ¬SameShape (a :: b :: t)) :
+    exec sqrt .sum (a :: b :: t) = eMp "MixedArrayShapes" .cmd ∧
+    exec sqrt .multiply (a :: b :: t) = eMp "MixedArrayShapes" .cmd ∧
+    exec sqrt .minimum (a :: b :: t) = eMp "MixedArrayShapes" .cmd ∧
+    exec sqrt .maximum (a :: b :: t) = eMp "MixedArrayShapes" .cmd ∧
+    exec sqrt .mean (a :: b :: t) = eMp "MixedArrayShapes" .cmd := by
+  have hv : validateShapes .cmd (a :: b :: t) = eMp "MixedArrayShapes" .cmd := by
+    rcases validateShapes_cases .cmd (a :: b :: t) with h1 | h1 | h1
+    · exact absurd ((validateShapes_ok_iff .cmd _ (by simp)).mp h1) h
+    · simp only [validateShapes] at h1; split at h1 <;> simp [eMp] at h1
+    · exact h1
+  simp only [exec, naryFold, hv]
+  exact ⟨rfl, rfl, rfl, rfl, rfl⟩
+
+/-- a weight count different from the input count is reported as `MismatchedWeights`, before shapes are looked at -/
+theorem mismatched_weights_error (sqrt : Rat → Rat) (w : List Num) (xs : List Arr) (h : w.length ≠ xs.length) :
+    exec sqrt (.weightedSum w) xs = eMp "MismatchedWeights" .none ∧
+    exec sqrt (.weightedMean w) xs = eMp "MismatchedWeights" .none := by
+  simp only [exec]
+  have : (w.length != xs.length) = true := by simpa using h
+  simp only [this, if_true, and_self]
+
+/-- non-vacuity: a concrete two-input Sum of an integer and a floating array with a missing cell -/
+example : exec (fun x => x) .sum [⟨.int, [2], [⟨1, false⟩, ⟨5, true⟩]⟩, ⟨.float, [2], [⟨1/2, false⟩, ⟨2, false⟩]⟩]
+    = .ok ⟨.float, [2], [⟨3/2, false⟩, ⟨5, true⟩]⟩ := by decide +kernel
+
+end MPilot.C07
